@@ -37,12 +37,13 @@ LEVEL_TEXT = (
     "(closed form of the metadata stanza through all stages incl. Multi and progress clear) and change_detected / "
     "payload_change_detected / label_change_detected / ordinary_annotation_change_detected (changed, added, removed), essence_wf, "
     "essence_injective_on_payload; keys_depend_only_on_body (make_keys is a function of the body served). "
-    "Partial with exact guard + proved negation: own_key_unmarked_invisible_partial (own exact key / progress-prefix key under an "
-    "UNMARKED prefix is invisible — diff of the essences empty — for a single AnnotationsDiffBaseStorage; false for "
-    "MultiDiffBaseStorage: multi_drs_witness, known finding C04-F9). Other proved negations: bool_int_witness (F7), "
+    "own_key_unmarked_invisible (an own exact key — as make_keys forms it for this body, -ofDRS mark included — or a key under a "
+    "progress prefix, under an UNMARKED prefix, is invisible: diff of the essences empty; every diff-base configuration incl. "
+    "MultiDiffBaseStorage as repaired in kopf 55b75e2, instance multi_drs_own_key_invisible = the former witness of C04-F9, now "
+    "fixed and kept as a regression case). Proved negations: bool_int_witness (F7), "
     "extra_status_witness (F8, guards ExtraAvoids/ExtraAnnOK/MetaPlain), marker_first_write_witness, null_absent_witness. "
     "Oracle/tie only (no theorem): label/annotation exactness when a handler field or an ignored/storage field starts with "
-    "`metadata` (outside MetaPlain); the unmarked-prefix route for StatusDiffBaseStorage/Multi without DRS. "
+    "`metadata` (outside MetaPlain); the unmarked-prefix route when the annotations mapping is absent before the write. "
     "Tie: differential run of the real diffs.diff/reduce, DiffBaseStorage.build (+Annotations/Status/Multi), ProgressStorage.clear "
     "(Annotations/Status/NoWrite/Multi/Smart) and make_keys, built with the real constructors, against the model — on generated "
     "bodies, on the bodies after every own write, and on ONE shared storage instance serving sequences of objects of mixed "
@@ -76,7 +77,7 @@ THEOREM_NAMES = [
     "status_invisible", "status_removal_invisible", "system_metadata_invisible",
     "marked_annotation_invisible", "prefix_group_invisible", "first_custom_prefix_write_invisible",
     "first_annotation_write_invisible", "marker_first_write_witness",
-    "own_key_unmarked_invisible_partial", "multi_drs_witness", "extra_status_witness",
+    "own_key_unmarked_invisible", "multi_drs_own_key_invisible", "extra_status_witness",
     "payload_exact", "essence_injective_on_payload", "essence_wf",
     "change_detected", "payload_change_detected", "label_exact", "annotation_exact",
     "label_change_detected", "ordinary_annotation_change_detected",
@@ -547,7 +548,7 @@ def model_diffleaf(K: dict, s: Any, hashes: dict) -> dict:
 
 def model_cfg(K: dict, ds: Any, ps: Any) -> dict:
     d, p = K["diffbase"], K["progress"]
-    hashes: dict[str, str] = {}
+    hashes: dict[str, str] = {"": make_suffix("")}       # make_keys asks for make_suffix('') (can a V1 key fit at all?)
     if isinstance(ds, d.MultiDiffBaseStorage):
         md = {"kind": "multi", "storages": [model_diffleaf(K, s, hashes) for s in ds.storages]}
     else:
@@ -908,6 +909,16 @@ def eval_ess_case(K: dict, case: dict, out: Out) -> None:
     if leanio.canon(body) != before:
         out.fail("oracle", "build/clear modified the body it was given", replay, {"site": "DiffBaseStorage.build", "shape": "mutates-body"})
     out.ask("diffbase.build + progress.clear", ["C04.essence", mcfg, mextra, body], res, replay)
+    for leaf_s, leaf_m in zip(ds.storages if isinstance(ds, K["diffbase"].MultiDiffBaseStorage) else [ds],
+                              mcfg["diffbase"]["storages"] if mcfg["diffbase"]["kind"] == "multi" else [mcfg["diffbase"]]):
+        if leaf_m["kind"] == "annotations":
+            try:
+                ks = ["ok", list(leaf_s.make_keys(leaf_s.key, body=K["bodies"].Body(body)))]
+            except tuple(ERRS) as ex:
+                ks = ["err", next(v for k, v in ERRS.items() if isinstance(ex, k))]
+            except AttributeError:
+                continue            # non-mapping metadata: `.get` on a scalar — outside the described domain
+            out.ask("make_keys", ["C04.keys", mcfg["hashes"], leaf_m["v1"], leaf_m["prefix"], leaf_m["key"], body], ks, replay)
     if res[0] != "ok":
         out.keys.add(digest(["ess-err", case["diffbase"], case["progress"], extra, body]))
         return
